@@ -101,7 +101,7 @@ func init() {
 		ID:    "C06",
 		Level: "model_checking",
 		Rule: "a decorated three-file Package node, and every node instance of every corpus tree, as parsed and with every decoration point of every node filled: Clone compared field by field (reflection), storage disjointness of everything reachable, " +
-			"mutation of every decoration list / slice / scalar of either side leaves the other unchanged, clone substituted in its parent prints identically; every (node, type-compatible slot) pair, and every path-carrying identifier of the import-bearing templates under import management: shared placement must panic " +
+			"mutation of every decoration list / slice / scalar of either side leaves the other unchanged, clone substituted in its parent prints identically; every (node, type-compatible slot) pair, and every path-carrying identifier of the import-bearing templates under import management: shared placement must panic (also with Extras, and through a FileRestorer that restored another file before) " +
 			"'duplicate node' with no output, cloned placement prints both; every node placed additionally at its own position in a second copy of its file, both files restored by one Restorer: the second restore must panic 'duplicate node', a clone must be accepted; state = (tree variant, node[, slot]); non-trivial = node with children or decorations",
 		Assumptions: []string{"reflection sees all exported fields (dst nodes have no unexported state)"},
 		Units: func(tier string) []string {
@@ -555,6 +555,35 @@ func c06Share(cs c06Case, f *dst.File, a dst.Node, fail func(string, string, ...
 	}
 	if out != "" {
 		return fail("shared-node-output", "%s: output produced despite the panic", what)
+	}
+	// the rejection does not depend on how the restorer is configured or what it restored before:
+	// Extras on, and one FileRestorer (Extras on) that has already restored another file
+	if !cs.Imports {
+		for _, conf := range []string{"extras", "reused-filerestorer-extras"} {
+			fx := c06Tree(cs)
+			allSlots(fx)[cs.Slot].Set(allNodes(fx)[cs.Node])
+			r := decorator.NewRestorer()
+			r.Extras = true
+			fr := r.FileRestorer()
+			if conf == "reused-filerestorer-extras" {
+				other, perr := decorator.Parse(otherFileSrc)
+				if perr != nil {
+					panic(perr)
+				}
+				var sink bytes.Buffer
+				if e := fr.Fprint(&sink, other); e != nil {
+					panic(e)
+				}
+			}
+			var buf bytes.Buffer
+			px := guard(func() { _ = fr.Fprint(&buf, fx) })
+			if px == "" {
+				return fail("shared-node-not-rejected:"+conf, "%s (%s): restore did not panic; output:\n%s", what, conf, buf.String())
+			}
+			if !strings.Contains(px, "duplicate node") {
+				return fail("shared-node-other-panic", "%s (%s): expected the 'duplicate node' panic, got: %s", what, conf, px)
+			}
+		}
 	}
 	// the same tree built from a clone prints, with both occurrences
 	f2 := c06Tree(cs)
